@@ -134,7 +134,7 @@ def ip_str(n):
     return "%d.%d.%d.%d" % ((n >> 24) & 255, (n >> 16) & 255, (n >> 8) & 255, n & 255)
 
 
-async def _scan(mode, protos, ids, feed, timeout=3):
+async def _scan(mode, protos, ids, feed, burst=False, timeout=3):
     """Run pyatv.scan() with the socket layer replaced.
 
     mode 'm': feed = [(src_ip_int, bytes)] delivered in order to the real
@@ -142,6 +142,11 @@ async def _scan(mode, protos, ids, feed, timeout=3):
               catch-and-log barrier ReceiveDelegate/asyncio apply), until the protocol closes.
     mode 'u': feed = [[bytes]] per host, delivered to the real UnicastDnsSdClientProtocol
               until it closes its transport.
+    burst=False: one datagram per event-loop iteration, and nothing any more once the protocol closed
+              its receivers / transport (what a selector transport does after close()).
+    burst=True:  the whole sequence is handed over synchronously in one go (no await in between) and
+              datagram_received keeps being called for the rest of the batch after the protocol
+              considered itself finished.
     Returns (configs, info).
     """
     import pyatv
@@ -151,31 +156,34 @@ async def _scan(mode, protos, ids, feed, timeout=3):
 
     loop = asyncio.get_event_loop()
     nh = len(feed) if mode == "u" else 0
-    info = {"delivered": [0] * nh, "raised": 0, "completed": [False] * nh, "aborted": False}
+    info = {"delivered": [0] * nh if mode == "u" else [0], "raised": 0, "completed": [False] * nh, "aborted": False,
+            "abort_at": None}
 
     async def fake_multicast(loop_, services, address="224.0.0.251", port=5353, timeout=4, end_condition=None):
         protocol = mdns.MulticastDnsSdClientProtocol(loop_, services, address, port, end_condition)
         recv = FakeReceiver()
         protocol._receivers.append(recv)
-        n = 0
+        def one(k):
+            src, data = feed[k]
+            try:
+                protocol.datagram_received(data, (ip_str(src), 5353))
+            except Exception:  # what ReceiveDelegate.datagram_received does
+                info["raised"] += 1
+            info["delivered"] = [k + 1]
+            if recv.closed and info["abort_at"] is None:
+                info["abort_at"] = k
+            info["aborted"] = bool(recv.closed)
 
-        def deliver():
-            nonlocal n
-            for src, data in feed:
-                if recv.closed:
-                    break
-                n += 1
-                try:
-                    protocol.datagram_received(data, (ip_str(src), 5353))
-                except Exception:  # what ReceiveDelegate.datagram_received does
-                    info["raised"] += 1
-            info["delivered"].append(n)
-            recv.closed_by_protocol = recv.closed
+        def deliver(k=0):
+            if burst:
+                for j in range(len(feed)):
+                    one(j)
+            elif k < len(feed) and not recv.closed:
+                one(k)
+                loop_.call_soon(deliver, k + 1)
 
         loop_.call_soon(deliver)
-        res = await protocol.get_response(timeout)
-        info["aborted"] = bool(recv.closed_by_protocol)
-        return res
+        return await protocol.get_response(timeout)
 
     hostno = {}
 
@@ -183,20 +191,21 @@ async def _scan(mode, protos, ids, feed, timeout=3):
         protocol = mdns.UnicastDnsSdClientProtocol(services, address, timeout)
         tr = FakeTransport()
         idx = hostno[address]
-        n = 0
-
-        def deliver():
-            nonlocal n
-            for data in feed[idx]:
-                if tr.closed:
-                    break
-                n += 1
-                try:
-                    protocol.datagram_received(data, (address, 5353))
-                except Exception:  # asyncio logs and continues (call_exception_handler)
-                    info["raised"] += 1
-            info["delivered"][idx] = n
+        def one(k):
+            try:
+                protocol.datagram_received(feed[idx][k], (address, 5353))
+            except Exception:  # asyncio logs and continues (call_exception_handler)
+                info["raised"] += 1
+            info["delivered"][idx] = k + 1
             info["completed"][idx] = bool(tr.closed)
+
+        def deliver(k=0):
+            if burst:
+                for j in range(len(feed[idx])):
+                    one(j)
+            elif k < len(feed[idx]) and not tr.closed:
+                one(k)
+                loop_.call_soon(deliver, k + 1)
 
         protocol.connection_made(tr)
         loop_.call_soon(deliver)
@@ -243,8 +252,8 @@ def observe(confs):
     return out
 
 
-def run_scan(mode, protos, ids, feed):
-    confs, info = vloop.run(_scan, mode, protos, ids, feed)
+def run_scan(mode, protos, ids, feed, burst=False):
+    confs, info = vloop.run(_scan, mode, protos, ids, feed, burst)
     return observe(confs), info
 
 
@@ -694,12 +703,14 @@ def normalise(obs):
     return sorted(out)
 
 
-def effective(sc, order, info):
-    """What the protocol actually took in before it stopped listening (observed on the fake
-    transport), as a set - two deliveries with the same effective input must give the same result."""
+def effective(sc, order, info, burst=False):
+    """What the protocol took in and whether it considered itself finished (observed on the fake
+    transport): two deliveries in the same mode with the same effective input must give the same result."""
     if sc["mode"] == "m":
-        n = info["delivered"][0] if info["delivered"] else 0
+        n = len(order) if burst else (info["delivered"][0] if info["delivered"] else 0)
         pre = order[:n]
+        if burst:
+            return (frozenset(pre),)
         last = sc["dgrams"][pre[-1]]["src"] if (info["aborted"] and pre) else None
         return (frozenset(pre), bool(info["aborted"]), last)
     nh = len(info["delivered"])
@@ -797,16 +808,17 @@ class Emit:
                 c["address"], self.ostr(c["name"]), common.cbool(c["deep_sleep"]), c["model"], props, svcs)))
         return "[" + ";".join(cs) + "]"
 
-    def case(self, sc, enc, order, obs, info):
+    def case(self, sc, enc, order, obs, info, burst=False):
         dg = [self.dgram(d, enc[j][1]) for j, d in enumerate(sc["dgrams"])]
+        b = "Burst" if burst else ""
         if sc["mode"] == "m":
-            h = "(HMulti [%s])" % ";".join("(%d,%s)" % (sc["dgrams"][i]["src"], dg[i]) for i in order)
+            h = "(HMulti%s [%s])" % (b, ";".join("(%d,%s)" % (sc["dgrams"][i]["src"], dg[i]) for i in order))
         else:
             nh = 1 + max(d["host"] for d in sc["dgrams"])
             per = [[] for _ in range(nh)]
             for i in order:
                 per[sc["dgrams"][i]["host"]].append(dg[i])
-            h = "(HUni [%s])" % ";".join("[" + ";".join(x) + "]" for x in per)
+            h = "(HUni%s [%s])" % (b, ";".join("[" + ";".join(x) + "]" for x in per))
         return "(%s, mkCase [%s] [%s] %s %s)" % (
             common.cbool(bool(sc["consistent"])),
             ";".join(sc["protos"]), ";".join(self.str(x) for x in sc["ids"]), h, self.obs(obs))
@@ -856,74 +868,100 @@ def static_checks(ctx):
         ctx.tie_broken("constants", json.dumps(problems))
 
 
-def safe_run_scenario(sc, orders):
+def as_run(o):
+    """A delivery is an order (list of datagram indices) or {"order": [...], "burst": true}."""
+    if isinstance(o, dict):
+        return list(o["order"]), bool(o.get("burst"))
+    if isinstance(o, tuple):
+        return list(o[0]), bool(o[1])
+    return list(o), False
+
+
+def safe_run_scenario(sc, runs):
+    """Runs the real scan for every delivery.  Returns (encoded datagrams, [(order, obs, info, burst)])."""
     enc = encode_scenario(sc)
     res = []
-    for order in orders:
+    for r in runs:
+        order, burst = as_run(r)
         try:
-            obs, info = run_scan(sc["mode"], sc["protos"], sc["ids"], feed_for(sc, enc, order))
+            obs, info = run_scan(sc["mode"], sc["protos"], sc["ids"], feed_for(sc, enc, order), burst)
         except Exception as ex:  # scan() itself raised
             obs, info = "EXC", {"delivered": [], "aborted": False, "completed": [], "raised": repr(ex)}
-        res.append((order, obs, info))
+        res.append((order, obs, info, burst))
     return enc, res
 
 
+def run_spec(order, burst):
+    return {"order": order, "burst": True} if burst else order
+
+
 def group_judge(sc, res):
-    """Oracle on one scenario; returns list of dict(key, what, order, base)."""
+    """Oracle on one scenario; returns list of dict(key, what, order, base) (order/base are run specs)."""
     out = []
     mode = "multicast" if sc["mode"] == "m" else "unicast"
-    good = [(o, ob, i) for (o, ob, i) in res if ob != "EXC"]
-    for order, obs, info in res:
+    for order, obs, info, burst in res:
         if obs == "EXC":
             out.append({"key": "C12:%s:scan-raised" % mode,
                         "what": "pyatv.scan() raised %s instead of returning the configurations of the devices that answered"
-                                % info.get("raised"), "order": order, "base": None})
+                                % info.get("raised"), "order": run_spec(order, burst), "base": None})
             break
-    for order, obs, info in good:
+    good = [r for r in res if r[1] != "EXC"]
+    for order, obs, info, burst in good:
         for k, w in judge_single(sc, obs):
-            out.append({"key": "C12:%s:%s" % (mode, k), "what": w, "order": order, "base": None})
-    if not sc["consistent"] or not good:
+            out.append({"key": "C12:%s:%s" % (mode, k), "what": w, "order": run_spec(order, burst), "base": None})
+    if not sc["consistent"]:
         return out
-    groups = {}
-    for order, obs, info in good:
-        groups.setdefault(effective(sc, order, info), []).append((order, normalise(obs)))
-    base_order, base_obs, base_info = good[0]
-    base_n = normalise(base_obs)
-    base_e = effective(sc, base_order, base_info)
-    for e, members in groups.items():
-        o0, n0 = members[0]
-        for o, n in members[1:]:
-            if n != n0:
-                dup = len(o) != len(set(o)) or len(o0) != len(set(o0))
-                out.append({"key": "C12:%s:order-or-duplication-dependence" % mode,
-                            "what": "the same datagrams were taken in, yet different configurations were returned (%s)" %
-                                    ("duplicated delivery" if dup else "other arrival order"),
-                            "order": o, "base": o0})
-        if e != base_e and n0 != base_n:
+    for burst in (False, True):
+        if burst and sc["mode"] == "m" and sc["ids"]:
+            continue    # identifier scan fed a whole batch: aborts and re-aborts, compared with the model only
+        sel = [r for r in good if r[3] == burst]
+        if not sel:
+            continue
+        groups = {}
+        for order, obs, info, _ in sel:
+            groups.setdefault(effective(sc, order, info, burst), []).append((order, normalise(obs)))
+        base_order, base_obs, base_info, _ = sel[0]
+        base_n = normalise(base_obs)
+        base_e = effective(sc, base_order, base_info, burst)
+        for e, members in groups.items():
+            o0, n0 = members[0]
+            for o, n in members[1:]:
+                if n != n0:
+                    dup = len(o) != len(set(o)) or len(o0) != len(set(o0))
+                    out.append({"key": "C12:%s:%sorder-or-duplication-dependence" % (mode, "burst-" if burst else ""),
+                                "what": "the same datagrams were taken in%s, yet different configurations were returned (%s)" %
+                                        (" in one batch" if burst else "",
+                                         "duplicated delivery" if dup else "other arrival order"),
+                                "order": run_spec(o, burst), "base": run_spec(o0, burst)})
+            if e == base_e or n0 == base_n:
+                continue
             dup = len(o0) != len(set(o0))
-            if sc["mode"] == "m" and not sc["ids"]:
+            spec, bspec = run_spec(o0, burst), run_spec(base_order, burst)
+            if sc["mode"] == "m" and (burst or not sc["ids"]):
                 out.append({"key": "C12:multicast:stops-listening-early",
-                            "what": "multicast scan without identifier filter closed its receivers before all datagrams "
-                                    "were delivered; the returned configurations depend on the arrival order",
-                            "order": o0, "base": base_order})
+                            "what": "multicast scan without identifier filter did not take in all delivered datagrams; "
+                                    "the returned configurations depend on the arrival order",
+                            "order": spec, "base": bspec})
             elif sc["mode"] == "m":
                 if dup:
                     out.append({"key": "C12:identifier-scan:early-abort-on-duplicate",
                                 "what": "identifier scan: a duplicated datagram advances the per-source counter, the scan "
                                         "aborts before the remaining datagrams arrive and returns different configurations",
-                                "order": o0, "base": base_order})
+                                "order": spec, "base": bspec})
                 else:
                     out.append({"key": "C12:identifier-scan:early-abort-order",
                                 "what": "identifier scan: more datagrams than queries from one source; which services are "
                                         "returned depends on which datagrams arrive before the counter reaches the number of queries",
-                                "order": o0, "base": base_order})
+                                "order": spec, "base": bspec})
             else:
+                # the counter decided differently in the two deliveries: reached early by a duplicate / an
+                # extra datagram (one datagram per iteration), or reached at all only thanks to a duplicate
                 out.append({"key": "C12:unicast-scan:completion-by-datagram-count",
                             "what": "unicast scan: completion is decided by counting datagrams (%s); the returned "
                                     "configurations differ" %
                                     ("a duplicate is counted as a further response" if dup else
                                      "more datagrams than queries, only the first ones are used"),
-                            "order": o0, "base": base_order})
+                            "order": spec, "base": bspec})
     return out
 
 
@@ -942,7 +980,9 @@ def run(ctx):
                 "answers are split over datagrams; plus conflicting/malformed variants for the model comparison only. "
                 "Every scenario is delivered in the identity order, in permutations (all of them up to %s datagrams, "
                 "sampled beyond) and with duplicated datagrams, to the real multicast protocol (with and without identifier "
-                "filter) or the real unicast protocol, through pyatv.scan(). Each delivery is one case, compared exactly "
+                "filter) or the real unicast protocol, through pyatv.scan(), in two delivery modes: one datagram per "
+                "event-loop iteration (nothing after the protocol closed its transport) and the whole sequence as one "
+                "synchronous batch (datagram_received keeps being called after completion). Each delivery is one case, compared exactly "
                 "(order included) with the Coq model; non-trivial = at least one configuration returned; distinct by "
                 "(scenario, delivery order)." % ("6" if ctx.thorough else "4"))
     plan = []
@@ -958,7 +998,11 @@ def run(ctx):
                 ex = nd <= 5 or (nd == 6 and rng.random() < 0.15)
             else:
                 ex = nd <= 4 and rng.random() < 0.35
-            plan.append((sc, gen_orders(rng, nd, nperm, ndup, ex), kind))
+            orders = gen_orders(rng, nd, nperm, ndup, ex)
+            # the same deliveries handed over as one batch: all of them for unicast, every other one for multicast
+            runs = [(o, False) for o in orders]
+            runs += [(o, True) for j, o in enumerate(orders) if mode == "u" or j % 2 == 0]
+            plan.append((sc, runs, kind))
     tm, ti = lookup_tables()
     ctx.note("built; %d scenarios planned (%.1fs)" % (len(plan), time.time() - ctx.t0))
     all_cases = []      # (defs, case, replay)
@@ -972,15 +1016,16 @@ def run(ctx):
             ctx.violation(v["key"], v["what"], {"scenario": sc, "order": v["order"], "base": v["base"]})
         # the model comparison takes a bounded sample of very large exhaustive sets
         keep = list(range(len(res)))
-        if len(keep) > 30:
-            keep = keep[:1] + sorted(rng.sample(keep[1:], 29))
+        if len(keep) > 40:
+            keep = keep[:1] + sorted(rng.sample(keep[1:], 39))
         for j in keep:
-            order, obs, info = res[j]
-            all_cases.append((sc, enc, order, obs, info))
-        for j, (order, obs, info) in enumerate(res):
-            ctx.case((idx, tuple(order)), nontrivial=(obs != "EXC" and len(obs) > 0),
+            order, obs, info, burst = res[j]
+            all_cases.append((sc, enc, order, obs, info, burst))
+        for j, (order, obs, info, burst) in enumerate(res):
+            ctx.count("burst" if burst else "one-per-iteration")
+            ctx.case((idx, tuple(order), burst), nontrivial=(obs != "EXC" and len(obs) > 0),
                      sample={"mode": sc["mode"], "protocols": sc["protos"], "identifier": sc["ids"], "kind": sc.get("kind"),
-                             "datagrams": len(sc["dgrams"]), "order": order,
+                             "datagrams": len(sc["dgrams"]), "order": order, "burst": burst,
                              "returned": "EXC" if obs == "EXC" else [[c["address"], [s[0] for s in c["services"]], c["model"], c["deep_sleep"]] for c in obs]}
                      if j == 1 and idx % 40 == 0 else None)
             ctx.count("dup" if len(order) != len(set(order)) else "perm")
@@ -1010,7 +1055,7 @@ def run(ctx):
             for b in bad:
                 nbad += 1
                 if nbad <= 5:
-                    ctx.tie_broken("correspondence:scan", json.dumps({"scenario": chunk[b][0], "order": chunk[b][2]}))
+                    ctx.tie_broken("correspondence:scan", json.dumps({"scenario": chunk[b][0], "order": run_spec(chunk[b][2], chunk[b][5])}))
     ctx.note("%d cases compared with the model in Coq, %d disagreements (%.1fs)" % (len(all_cases), nbad, time.time() - ctx.t0))
     ctx.extra["model_cases"] = len(all_cases)
     ctx.extra["model_disagreements"] = nbad
@@ -1024,7 +1069,8 @@ def run(ctx):
         "through a 3-line copy of decode_value); byte-level decoding is covered by C04/C05",
         "driver: pyatv.scan() runs unmodified; mdns.multicast/mdns.unicast/knock.knocker are replaced by stubs that build "
         "the real protocol objects with fake transports and deliver the datagrams from one loop callback, stopping when "
-        "the protocol closes its receivers/transport (what the socket layer does); exceptions of datagram_received "
+        "the protocol closes its receivers/transport (what a selector transport does), or - burst mode - hand over the "
+        "whole sequence synchronously and keep calling datagram_received after completion; exceptions of datagram_received "
         "are logged-and-ignored as asyncio / ReceiveDelegate do; harness/vloop.py virtual time",
         "lookup_model/lookup_internal_name are parameters of the model; the run instantiates them with the values the "
         "real functions return for the strings used",
@@ -1036,7 +1082,8 @@ def run(ctx):
         "(name, SRV/TXT), one routable A per host, per address: one (deep-sleep, model) pair, services of one protocol agree "
         "on identifier and port and have compatible properties, services of one type have equal properties, "
         "model hints agree",
-        "after the protocol closed its receivers/transport no further datagram is delivered",
+        "one-per-iteration mode: after the protocol closed its receivers/transport no further datagram is delivered; "
+        "burst mode: the rest of the batch is still delivered (identifier scans in burst mode are compared with the model only)",
         "raop device_info 'wama' parsing and other extractor exceptions are outside the model (no such property generated)",
     ]
 
@@ -1050,12 +1097,13 @@ def replay(ctx, path):
         print(json.dumps(d.get("broken", d), indent=1)[:6000])
         return 1
     sc = r["scenario"]
-    orders = [o for o in (r.get("base"), r.get("order")) if o is not None]
-    if not orders:
-        orders = [list(range(len(sc["dgrams"])))]
-    enc, res = safe_run_scenario(sc, orders)
-    for order, obs, info in res:
-        print("order=%s delivered=%s aborted=%s completed=%s" % (order, info.get("delivered"), info.get("aborted"), info.get("completed")))
+    runs = [o for o in (r.get("base"), r.get("order")) if o is not None]
+    if not runs:
+        runs = [list(range(len(sc["dgrams"])))]
+    enc, res = safe_run_scenario(sc, runs)
+    for order, obs, info, burst in res:
+        print("order=%s mode=%s delivered=%s aborted=%s completed=%s" % (
+            order, "burst" if burst else "one-per-iteration", info.get("delivered"), info.get("aborted"), info.get("completed")))
         print("   returned=%s" % ("EXC " + str(info.get("raised")) if obs == "EXC" else json.dumps(normalise(obs))))
     errs = group_judge(sc, res)
     for e in errs:
